@@ -11,19 +11,32 @@
 //!        model). In the result the "time signed" field of a response TSIG record (last record,
 //!        empty MAC — no keys are configured in this group) is replaced by `time − now`.
 //!        Spec column `?` = anything but a panic.
-//!   srvh <payload> <catalog> <ne> <nx> <er> <window> <slip> <v4len> <v6len> <size> <steps>
+//!   srvh <payload> <catalog> <keys> <ne> <nx> <er> <window> <slip> <v4len> <v6len> <size> <steps>
 //!        one whole HISTORY against one server with response rate limiting enabled
-//!        (→ `resp;resp;…`, one `hex|none|panic` per request step). steps are `;`-separated:
-//!          s<secs>                                   the hook `verif_rrl_shift(secs)`
-//!          q,<src>,<u|t>,<reqhex>,<rcode>,<cands>    one request; recorded inputs of the model
-//!             (DESIGN §3.5): `rcode` = extended RCODE of the same request on a twin server without
-//!             RRL (only used to key the probes), `cands` = `/`-separated `namehex:idx:dest:qhash`:
-//!             the probe `verif_rrl_probe(src, name, rcode)` of the table's RandomState for every
-//!             name the handler could hash (QNAME, root, every `*…` suffix of an owner in the
-//!             catalog). The model decides itself which name is hashed.
+//!        (→ `resp;resp;…`, one result per request step). `keys` as in group `srvtsig`.
+//!        steps are `;`-separated:
+//!          s<secs>                                        the hook `verif_rrl_shift(secs)`
+//!          q,<src>,<u|t>,<reqhex>,<rcode>,<rnd>,<cands>   one request, result `hex|none|panic`
+//!          g,<src>,<u|t>,<reqhex>,<sign>,<now>,<rcode>,<rnd>,<cands>
+//!             one request SIGNED by the harness at the current wall-clock second (`sign` = the
+//!             signing parameters of group `srvtsig` with `~` for `,`; `now` = that second, for the
+//!             driver); result = `canonical_t` of group `srvtsig` (times relative, MAC replaced by
+//!             the verdict of the harness's own RFC 8945 verification) | none | panic
+//!          recorded inputs of the model (DESIGN §3.5): `rcode` = extended RCODE of the same request
+//!          on a twin server without RRL (only used to key the probes); `cands` = `/`-separated
+//!          `namehex:idx:dest:qhash`: the probe `verif_rrl_probe(src, name, rcode)` of the table's
+//!          RandomState for every name the handler could hash (NOERROR: root, QNAME, every wildcard
+//!          node `*.<ancestor of QNAME>` of the catalog, owner or empty non-terminal; other categories do not hash a name: one
+//!          probe). The model decides itself which name is hashed. `rnd` = 1 iff a response was
+//!          sent: for slip ≥ 2 this is the recorded outcome of `should_slip`'s random draw, which
+//!          the model reads only when it has decided that the response is limited.
 //!        The model runs on times (sum of shifts)·10⁹ ns; a history whose real duration exceeds
-//!        0.4 s is discarded (the whole seconds since a bucket's last refill are then exactly the
-//!        shifts). slip ∈ {0, 1} only (slip ≥ 2 is random: C26). No TSIG-signed responses here.
+//!        0.4 s, or in which the wall-clock second changes during a request, is discarded (the
+//!        whole seconds since a bucket's last refill are then exactly the shifts).
+//!        Replay: the table's `RandomState` is fresh in every process, so `run` repeats the history
+//!        until the pattern of equal bucket indices and equal name hashes among the recorded probes
+//!        is reproduced (the model depends on nothing else of them) and the `rnd` bits are the
+//!        recorded ones (at most 20000 times / 30 s; then the last result is reported).
 //!
 //! Streams: exhaustive short messages; zones with records of type 41/250/10/0/65535; malformed
 //! RDATA of every name-bearing type; names of 255 octets and 63-octet labels in zone data and
@@ -39,6 +52,7 @@ use quandary::server::{ReceivedInfo, Response, RrlParams, Server, Transport};
 use std::net::{IpAddr, Ipv4Addr, Ipv6Addr};
 use quandary::name::Name;
 use quandary::message::ExtendedRcode;
+use crate::g_srvtsig::{self, KeyCfg, Sign};
 
 fn lname(labels: &[&[u8]]) -> Vec<u8> {
     dns::name_from_labels(&labels.iter().map(|l| l.to_vec()).collect::<Vec<_>>())
@@ -144,22 +158,41 @@ pub fn run(op: &str, a: &[&str]) -> Option<String> {
             Some(handle_q(&server, &req, *tr == "t").1)
         }
         ("audq", [_payload, _cat, _req, _udp, _tcp]) => Some("ok".into()),
-        ("srvh", [payload, cat, ne, nx, er, w, slip, v4, v6, size, steps]) => {
-            let (Some(zs), Ok(payload)) = (dec_catalog(cat), payload.parse::<u16>()) else { return Some("bad-op".into()) };
+        ("srvh", [payload, cat, keys, ne, nx, er, w, slip, v4, v6, size, steps]) => {
+            let (Some(zs), Some(ks), Ok(payload)) = (dec_catalog(cat), dec_keys(keys), payload.parse::<u16>()) else { return Some("bad-op".into()) };
             let p: Option<Vec<u64>> = [ne, nx, er, w, slip, v4, v6, size].iter().map(|x| x.parse::<u64>().ok()).collect();
             let Some(p) = p else { return Some("bad-op".into()) };
             let mut hs = Vec::new();
+            let mut recorded: Vec<&str> = Vec::new();
+            let mut rec_rnd: Vec<bool> = Vec::new();
             for st in steps.split(';') {
                 if let Some(r) = st.strip_prefix('s') { hs.push(HStep::Shift(r.parse().ok()?)); continue; }
                 let f: Vec<&str> = st.split(',').collect();
-                if f.len() < 4 || f[0] != "q" { return Some("bad-op".into()); }
-                hs.push(HStep::Q { src: src_unhex(f[1])?, udp: f[2] == "u", req: unhex(f[3])? });
+                match f[0] {
+                    "q" if f.len() == 7 => { hs.push(HStep::Q { src: src_unhex(f[1])?, udp: f[2] == "u", req: unhex(f[3])?, sign: None }); recorded.push(f[6]); rec_rnd.push(f[5] == "1"); }
+                    "g" if f.len() == 9 => {
+                        let sg = dec_sign(&f[4].replace('~', ","))?;
+                        let req = unhex(f[3])?;
+                        if req.len() < 12 { return Some("bad-op".into()); }
+                        hs.push(HStep::Q { src: src_unhex(f[1])?, udp: f[2] == "u", req, sign: Some(sg) }); recorded.push(f[8]); rec_rnd.push(f[7] == "1");
+                    }
+                    _ => return Some("bad-op".into()),
+                }
             }
-            // replays retry a few times if the clock runs away
-            for _ in 0..5 {
-                if let Some((_, res)) = exec_history(&zs, payload, &p, &hs) { return Some(res); }
+            let want = pattern_of(&recorded);
+            // replays: until the clock holds still, the collision pattern is the recorded one and (slip ≥ 2)
+            // the random draws fall as recorded
+            let t0 = std::time::Instant::now();
+            let mut last: Option<String> = None;
+            for _ in 0..20000 {
+                if let Some(h) = exec_history(&zs, &ks, payload, &p, &hs) {
+                    let got = pattern_of(&h.cands.iter().map(|x| x.as_str()).collect::<Vec<_>>());
+                    if got == want && h.rnds == rec_rnd { return Some(h.res); }
+                    last = Some(h.res);
+                }
+                if t0.elapsed() > std::time::Duration::from_secs(30) { break; }
             }
-            Some("clock".into())
+            Some(last.unwrap_or_else(|| "clock".into()))
         }
         _ => None,
     }
@@ -471,7 +504,46 @@ fn short_messages(rng: &mut Rng, thorough: bool, em: &mut Emitter, zs: &[ZoneCfg
 // ------------------------------------------------------------------------------------------
 
 #[derive(Clone, Debug)]
-enum HStep { Shift(u64), Q { src: IpAddr, udp: bool, req: Vec<u8> } }
+enum HStep { Shift(u64), Q { src: IpAddr, udp: bool, req: Vec<u8>, sign: Option<Sign> } }
+
+// the encodings of group `srvtsig` (private there)
+fn enc_keys(ks: &[KeyCfg]) -> String {
+    if ks.is_empty() { return "-".into(); }
+    ks.iter().map(|k| format!("{}/{}/{}", hex(&k.name), if k.sha256 { 256 } else { 1 }, hex(&k.secret))).collect::<Vec<_>>().join(",")
+}
+
+fn dec_keys(s: &str) -> Option<Vec<KeyCfg>> {
+    if s == "-" { return Some(vec![]); }
+    let mut out = Vec::new();
+    for k in s.split(',') {
+        let f: Vec<&str> = k.split('/').collect();
+        if f.len() != 3 { return None; }
+        out.push(KeyCfg { name: unhex(f[0])?, sha256: match f[1] { "1" => false, "256" => true, _ => return None }, secret: unhex(f[2])? });
+    }
+    Some(out)
+}
+
+fn enc_sign(s: &Sign) -> String {
+    format!("{},{},{},{},{},{},{},{},{},{},{},{},{},{},{}", hex(&s.skey), hex(&s.salg), if s.sha256 { 256 } else { 1 }, hex(&s.secret),
+            s.offset, s.fudge, s.maclen, match s.tamper { None => "-".to_string(), Some((p, x)) => format!("{}x{}", p, x) },
+            s.tweak, s.idmode, s.err, hex(&s.other), s.cls, s.ttl, s.place)
+}
+
+fn dec_sign(s: &str) -> Option<Sign> {
+    let f: Vec<&str> = s.split(',').collect();
+    if f.len() != 15 { return None; }
+    let tamper = if f[7] == "-" { None } else {
+        let g: Vec<&str> = f[7].split('x').collect();
+        if g.len() != 2 { return None; }
+        Some((g[0].parse().ok()?, g[1].parse().ok()?))
+    };
+    Some(Sign {
+        skey: unhex(f[0])?, salg: unhex(f[1])?, sha256: match f[2] { "1" => false, "256" => true, _ => return None },
+        secret: unhex(f[3])?, offset: f[4].parse().ok()?, fudge: f[5].parse().ok()?, maclen: f[6].parse().ok()?, tamper,
+        tweak: f[8].parse().ok()?, idmode: f[9].parse().ok()?, err: f[10].parse().ok()?, other: unhex(f[11])?,
+        cls: f[12].parse().ok()?, ttl: f[13].parse().ok()?, place: f[14].to_string(),
+    })
+}
 
 fn src_hex(a: &IpAddr) -> String {
     match a { IpAddr::V4(v) => format!("{:08x}", u32::from(*v)), IpAddr::V6(v) => format!("{:032x}", u128::from(*v)) }
@@ -499,26 +571,54 @@ fn ext_rcode_of(resp: &[u8]) -> u16 {
     }
 }
 
-/// every name the handler could hash for this request: QNAME, root, every `*…` suffix of an owner
+fn lower(w: &[u8]) -> Vec<u8> { w.iter().map(|b| b.to_ascii_lowercase()).collect() }
+
+/// every name the handler could hash for a NOERROR response to this request: root, QNAME, every
+/// wildcard node `*.<ancestor of QNAME>` of the catalog
 fn candidate_names(zs: &[ZoneCfg], req: &[u8]) -> Vec<Vec<u8>> {
     let mut v: Vec<Vec<u8>> = vec![vec![0]];
-    if req.len() > 12 { if let Some((w, _)) = dns::decode_name(req, 12) { v.push(w); } }
-    for z in zs { for r in &z.recs {
+    let qname = if req.len() > 12 { dns::decode_name(req, 12).map(|x| x.0) } else { None };
+    if let Some(q) = &qname {
+        v.push(q.clone());
+        // proper suffixes (ancestors) of QNAME, lower case
+        let mut anc: Vec<Vec<u8>> = Vec::new();
         let mut p = 0usize;
-        while p < r.owner.len() && r.owner[p] != 0 {
-            let l = r.owner[p] as usize;
-            if l == 1 && r.owner.get(p + 1) == Some(&b'*') { v.push(r.owner[p..].to_vec()); }
-            p += 1 + l;
-        }
-    }}
+        while p < q.len() && q[p] != 0 { p += 1 + q[p] as usize; if p <= q.len() { anc.push(lower(&q[p..])); } }
+        // wildcard nodes of the zones (owners and empty non-terminals): every `*.<ancestor of QNAME>` suffix of an owner
+        for z in zs { for r in &z.recs {
+            let mut p = 0usize;
+            while p < r.owner.len() && r.owner[p] != 0 {
+                let l = r.owner[p] as usize;
+                if l == 1 && r.owner.get(p + 1) == Some(&b'*') && anc.contains(&lower(&r.owner[p + 2..])) { v.push(r.owner[p..].to_vec()); }
+                p += 1 + l;
+            }
+        }}
+    }
     v.sort(); v.dedup();
     v
 }
 
-/// run a history; `None` = the real clock advanced too far. Returns (steps text, results text).
-fn exec_history(zs: &[ZoneCfg], payload: u16, p: &[u64], steps: &[HStep]) -> Option<(String, String)> {
-    let reference = make_server(zs, payload)?;
-    let mut server = make_server(zs, payload)?;
+/// which probes share a bucket index / a name hash (first-occurrence numbering)
+fn pattern_of(cands: &[&str]) -> Vec<(usize, usize)> {
+    let mut idx: Vec<&str> = Vec::new();
+    let mut qh: Vec<&str> = Vec::new();
+    let mut out = Vec::new();
+    for step in cands { for c in step.split('/') {
+        let f: Vec<&str> = c.split(':').collect();
+        if f.len() != 4 { continue; }
+        let a = match idx.iter().position(|x| *x == f[1]) { Some(i) => i, None => { idx.push(f[1]); idx.len() - 1 } };
+        let b = match qh.iter().position(|x| *x == f[3]) { Some(i) => i, None => { qh.push(f[3]); qh.len() - 1 } };
+        out.push((a, b));
+    }}
+    out
+}
+
+struct History { text: String, res: String, cands: Vec<String>, rnds: Vec<bool> }
+
+/// run a history; `None` = the real clock advanced too far (or crossed a second during a request)
+fn exec_history(zs: &[ZoneCfg], keys: &[KeyCfg], payload: u16, p: &[u64], steps: &[HStep]) -> Option<History> {
+    let reference = g_srvtsig::make_server(zs, payload, keys)?;
+    let mut server = g_srvtsig::make_server(zs, payload, keys)?;
     let mut params = RrlParams::new(p[0] as u32, p[1] as u32, p[2] as u32, p[3] as u32).ok()?;
     params.set_slip(p[4] as usize);
     params.set_ipv4_prefix_len(p[5] as u8).ok()?;
@@ -528,39 +628,59 @@ fn exec_history(zs: &[ZoneCfg], payload: u16, p: &[u64], steps: &[HStep]) -> Opt
     server.set_rrl_params(Some(params));
     let mut parts = Vec::new();
     let mut res = Vec::new();
+    let mut all_cands = Vec::new();
+    let mut rnds = Vec::new();
     let mut buf = vec![0u8; 65535];
     for st in steps {
         match st {
             HStep::Shift(secs) => { server.verif_rrl_shift(*secs); parts.push(format!("s{}", secs)); }
-            HStep::Q { src, udp, req } => {
+            HStep::Q { src, udp, req, sign } => {
                 let tr = if *udp { Transport::Udp } else { Transport::Tcp };
-                let rcode = match reference.handle_message(req, ReceivedInfo::new(*src, tr), &mut buf[..]) {
+                let t0 = unix_now();
+                let signed = sign.as_ref().map(|s| g_srvtsig::sign_request(req, s, t0));
+                let wire: &[u8] = match &signed { Some(sg) => &sg.msg[..], None => &req[..] };
+                let rcode = match reference.handle_message(wire, ReceivedInfo::new(*src, tr), &mut buf[..]) {
                     Response::Single(n) => ext_rcode_of(&buf[..n]),
                     Response::None => 0,
                 };
+                let names = if rcode == 0 { candidate_names(zs, req) } else { vec![vec![0]] };
                 let mut cands = Vec::new();
-                for w in candidate_names(zs, req) {
+                for w in names {
                     if let Ok(n) = Name::try_from_uncompressed_all(&w[..]) {
                         let (idx, dest, qh) = server.verif_rrl_probe(canonical(*src), &n, ExtendedRcode::from(rcode))?;
                         cands.push(format!("{}:{}:{}:{}", hex(&w), idx, dest, qh));
                     }
                 }
-                let t0 = unix_now();
                 let got = std::panic::catch_unwind(std::panic::AssertUnwindSafe(|| {
-                    match server.handle_message(req, ReceivedInfo::new(*src, tr), &mut buf[..]) {
+                    match server.handle_message(wire, ReceivedInfo::new(*src, tr), &mut buf[..]) {
                         Response::Single(n) => Some(n),
                         Response::None => None,
                     }
                 }));
-                // the one wall-clock field of a response (time signed of an unsigned TSIG error) is made relative
+                // the wall clock enters signed requests and TSIG records of responses: it must hold still
                 if unix_now() != t0 { return None; }
-                res.push(match got { Ok(Some(n)) => hex(&mask_time(&buf[..n], t0)), Ok(None) => "none".into(), Err(_) => "panic".into() });
-                parts.push(format!("q,{},{},{},{},{}", src_hex(src), if *udp { "u" } else { "t" }, hex(req), rcode, cands.join("/")));
+                let rnd = matches!(got, Ok(Some(_)));
+                let cands = cands.join("/");
+                match (&signed, sign) {
+                    (Some(sg), Some(s)) => {
+                        let e = (sg.mac_off + sg.mac_len).min(sg.msg.len());
+                        let prior = sg.msg[sg.mac_off.min(e)..e].to_vec();
+                        res.push(match got { Ok(Some(n)) => g_srvtsig::canonical_t(&buf[..n], t0, keys, &prior), Ok(None) => "none".into(), Err(_) => "panic".into() });
+                        parts.push(format!("g,{},{},{},{},{},{},{},{}", src_hex(src), if *udp { "u" } else { "t" }, hex(req), enc_sign(s).replace(',', "~"), t0, rcode, rnd as u8, cands));
+                    }
+                    _ => {
+                        // the one wall-clock field of such a response (time signed of an unsigned TSIG error) is made relative
+                        res.push(match got { Ok(Some(n)) => hex(&mask_time(&buf[..n], t0)), Ok(None) => "none".into(), Err(_) => "panic".into() });
+                        parts.push(format!("q,{},{},{},{},{},{}", src_hex(src), if *udp { "u" } else { "t" }, hex(req), rcode, rnd as u8, cands));
+                    }
+                }
+                all_cands.push(cands);
+                rnds.push(rnd);
             }
         }
     }
     if t_start.elapsed() > std::time::Duration::from_millis(400) { return None; }
-    Some((parts.join(";"), res.join(";")))
+    Some(History { text: parts.join(";"), res: res.join(";"), cands: all_cands, rnds })
 }
 
 /// a zone with wildcards at several depths, an empty non-terminal `*`, a delegation, CNAMEs
@@ -594,52 +714,82 @@ fn gen_histories(rng: &mut Rng, thorough: bool, em: &mut Emitter) {
         let zs: Vec<ZoneCfg> = match rng.below(4) { 0 => vec![odd_zone(rng)], 1 => vec![wild_zone(rng), odd_zone(rng)], _ => vec![wild_zone(rng)] };
         let payload = *rng.pick(&[512u16, 1232, 4096]);
         let rate = rng.range(1, 3) as u64;
-        let p: Vec<u64> = vec![rate, rng.range(1, 2) as u64, rng.range(1, 2) as u64, rng.range(1, 2) as u64, rng.below(2) as u64,
-            *rng.pick(&[24u64, 32, 8, 0]), *rng.pick(&[56u64, 64, 0]), *rng.pick(&[1u64, 2, 3, 17, 1009, 65537])];
+        let size = *rng.pick(&[1u64, 2, 3, 17, 1009, 65537, 65537]);
+        // small tables: few streams, so that the collision pattern of a history can be reproduced on replay
+        let small = size < 1000;
+        let p: Vec<u64> = vec![rate, rng.range(1, 2) as u64, rng.range(1, 2) as u64, rng.range(1, 2) as u64, *rng.pick(&[0u64, 1, 1, 2, 3]),
+            *rng.pick(&[24u64, 32, 8, 0]), *rng.pick(&[56u64, 64, 0]), size];
+        let keys: Vec<KeyCfg> = if rng.chance(1, 2) { vec![] } else {
+            let sha256 = rng.chance(2, 3);
+            vec![KeyCfg { name: lname(&[b"Hk", b"keys"]), sha256, secret: (0..*rng.pick(&[16usize, 32, 64, 100])).map(|_| rng.byte()).collect() }]
+        };
         let apex = zs[0].apex.clone();
-        let srcs: Vec<IpAddr> = vec![
+        let mut srcs: Vec<IpAddr> = vec![
             IpAddr::V4(Ipv4Addr::new(192, 0, 2, 1)), IpAddr::V4(Ipv4Addr::new(192, 0, 2, 77)), IpAddr::V4(Ipv4Addr::new(198, 51, 100, 5)),
             IpAddr::V6(Ipv6Addr::from(0x2001_0db8_0000_0000_0000_0000_0000_0001u128)),
             IpAddr::V6(Ipv6Addr::from(0x0000_0000_0000_0000_0000_ffff_c000_0201u128)), // ::ffff:192.0.2.1
         ];
+        if small { let k = rng.below(srcs.len()); srcs = vec![srcs[0], srcs[k]]; }
         // a small pool of requests; histories repeat them so that streams get limited
-        let mut pool: Vec<Vec<u8>> = Vec::new();
+        let mut pool: Vec<(Vec<u8>, Option<Sign>)> = Vec::new();
         let names: Vec<Vec<u8>> = vec![
             prefixed(b"host", &apex), prefixed(b"x1", &apex), prefixed(b"x2", &apex), prefixed(b"X1", &apex),
             prefixed(b"q", &prefixed(b"sub", &apex)), prefixed(b"r", &prefixed(b"sub", &apex)),
             prefixed(b"a", &prefixed(b"b", &prefixed(b"ent", &apex))), prefixed(b"k", &prefixed(b"ent", &apex)),
             prefixed(b"al", &apex), prefixed(b"u", &prefixed(b"deleg", &apex)), apex.clone(), lname(&[b"nowhere"]), prefixed(b"x", &lname(&[b"odd"])),
         ];
-        for _ in 0..rng.range(2, 5) {
+        for _ in 0..rng.range(2, if small { 3 } else { 5 }) {
             let qn = rng.pick(&names).clone();
             let qt = *rng.pick(&[1u16, 1, 16, 15, 255, 28, 5, 41]);
             let edns = if rng.chance(1, 3) { Some(*rng.pick(&[512u16, 1232, 4096])) } else { None };
-            pool.push(query(rng.next() as u16, &qn, qt, 1, edns));
+            pool.push((query(rng.next() as u16, &qn, qt, 1, edns), None));
         }
-        if rng.chance(1, 4) { pool.push(d17.clone()); }
+        if let Some(k) = keys.first() {
+            // signed requests: answered with a signed response — also when that response is slipped
+            let good = Sign { skey: k.name.clone(), salg: if k.sha256 { b"\x0bhmac-sha256\x00".to_vec() } else { b"\x09hmac-sha1\x00".to_vec() },
+                sha256: k.sha256, secret: k.secret.clone(), offset: *rng.pick(&[0i64, 0, 1, -100]), fudge: 300,
+                maclen: if k.sha256 { 32 } else { 20 }, tamper: None, tweak: 0, idmode: 0, err: 0, other: vec![], cls: 255, ttl: 0, place: "last".into() };
+            for _ in 0..rng.range(1, 2) {
+                let qn = rng.pick(&names).clone();
+                let edns = if rng.chance(1, 3) { Some(1232u16) } else { None };
+                pool.push((query(rng.next() as u16, &qn, *rng.pick(&[1u16, 16, 255]), 1, edns), Some(good.clone())));
+            }
+            if rng.chance(1, 3) {
+                // BADSIG / BADTIME / truncated MAC / unknown key: TSIG errors through RRL
+                let mut bad = good.clone();
+                match rng.below(4) { 0 => { bad.secret = vec![1, 2, 3]; } 1 => { bad.offset = 1_000_000; } 2 => { bad.maclen = 10; } _ => { bad.skey = lname(&[b"unknown", b"keys"]); } }
+                pool.push((pool[0].0.clone(), Some(bad)));
+            }
+            if rng.chance(1, 4) {
+                // a signed request without question
+                pool.push((dns::header(rng.next() as u16, 0x0100, 0, 0, 0, 0), Some(good.clone())));
+            }
+        }
+        if rng.chance(1, 4) { pool.push((d17.clone(), None)); }
         if rng.chance(1, 3) {
             // a question that matches a wildcard + a TSIG record too long to answer within 512 octets:
             // RFC 8945 §5.3 truncation (NOERROR, AA clear) — the name hashed is QNAME, not the wildcard
             let mut m = query(rng.next() as u16, &prefixed(b"x1", &apex), 1, 1, None);
             m[11] = 1;
             m.extend(tsig_rr(&long_name(255, &[0], b'k'), &long_name(220, &[0], b'a'), 0, 1_700_000_000, 7));
-            pool.push(m);
+            pool.push((m, None));
         }
-        if rng.chance(1, 4) { let mut m = pool[0].clone(); m[2] |= 0x28; pool.push(m); }          // opcode 5
-        if rng.chance(1, 4) { let mut m = pool[0].clone(); let k = m.len(); m.truncate(k - 1); pool.push(m); } // FORMERR
-        if rng.chance(1, 5) { let mut m = pool[0].clone(); m.push(0); pool.push(m); }                // trailing octet
-        if rng.chance(1, 6) { pool.push(dns::header(7, 0x0100, 0, 0, 0, 0)); }                       // no question
-        if rng.chance(1, 8) { let mut m = pool[0].clone(); dns::mutate(rng, &mut m); pool.push(m); }
+        if rng.chance(1, 4) { let mut m = pool[0].0.clone(); m[2] |= 0x28; pool.push((m, None)); }          // opcode 5
+        if rng.chance(1, 4) { let mut m = pool[0].0.clone(); let k = m.len(); m.truncate(k - 1); pool.push((m, None)); } // FORMERR
+        if rng.chance(1, 5) { let mut m = pool[0].0.clone(); m.push(0); pool.push((m, None)); }                // trailing octet
+        if rng.chance(1, 6) { pool.push((dns::header(7, 0x0100, 0, 0, 0, 0), None)); }                       // no question
+        if rng.chance(1, 8) { let mut m = pool[0].0.clone(); dns::mutate(rng, &mut m); if m.len() >= 12 { pool.push((m, None)); } }
         let mut steps = Vec::new();
         let len = rng.range(6, if thorough { 24 } else { 14 });
         for _ in 0..len {
             if rng.chance(1, 4) { steps.push(HStep::Shift(*rng.pick(&[0u64, 1, 1, 2, 3, 10, 4294967296]))); }
             let src = if rng.chance(2, 3) { srcs[0] } else { *rng.pick(&srcs) };
-            steps.push(HStep::Q { src, udp: !rng.chance(1, 8), req: rng.pick(&pool).clone() });
+            let (req, sign) = rng.pick(&pool).clone();
+            steps.push(HStep::Q { src, udp: !rng.chance(1, 8), req, sign });
         }
-        if let Some((text, res)) = exec_history(&zs, payload, &p, &steps) {
+        if let Some(h) = exec_history(&zs, &keys, payload, &p, &steps) {
             let ps: Vec<String> = p.iter().map(|x| x.to_string()).collect();
-            em.emit(&format!("srvh {} {} {} {}", payload, enc_catalog(&zs), ps.join(" "), text), &res);
+            em.emit(&format!("srvh {} {} {} {} {}", payload, enc_catalog(&zs), enc_keys(&keys), ps.join(" "), h.text), &h.res);
         }
     }
 }
